@@ -190,7 +190,9 @@ def keptIds (units : List (UnitHdr × List Entry)) (out : List Off) : List Off :
 convert (all its references resolve in the full `entry_ids`) is converted by the filtered
 conversion too: every reference to a DIE — from the attribute itself, from any operation of its
 expression (`DW_OP_implicit_pointer`, `DW_OP_GNU_variable_value` and operations nested in
-`DW_OP_entry_value` included) or from any entry of its location list (entries the cooked iterator
+`DW_OP_entry_value`s included: up to `MAX_ENTRY_VALUE_DEPTH` = 64 levels they are recorded, and a
+deeper one makes the unfiltered conversion fail with `UnsupportedOperation`, so the hypothesis
+excludes it) or from any entry of its location list (entries the cooked iterator
 skips included) — targets a kept DIE, so `convert_unit_ref` / `convert_debug_info_ref` never fail
 for a missing entry and `write()` never meets a reserved but unwritten id.
 FULL STRENGTH for every entry other than the unit root: since the fixes 6341b4d / 34014b9 (former
@@ -241,8 +243,21 @@ theorem no_dangling_partial (m : Mode) (units : List (UnitHdr × List Entry)) (d
     | unitRef val => exact hu val (fun t ht => hsub _ ho t (by simpa [opDeps] using ht)) h1
     | infoRef val => exact hi val (hsub _ ho val (by simp [opDeps])) h1
     | implicitRef val => exact hi val (hsub _ ho val (by simp [opDeps])) h1
-    | nestedUnitRef val => exact hu val (fun t ht => hsub _ ho t (by simpa [opDeps] using ht)) h1
-    | nestedInfoRef val => exact hi val (hsub _ ho val (by simp [opDeps])) h1
+    | nestedUnitRef k val =>
+      -- a reference nested deeper than the bound makes the unfiltered conversion fail
+      simp only [convOp] at h1 ⊢
+      by_cases hk : scansDepth k = true
+      · simp only [hk, if_true] at h1 ⊢
+        exact hu val (fun t ht => hsub _ ho t (by
+          simp only [opDeps, hk, Bool.true_and]; exact ht)) h1
+      · simp [hk] at h1
+    | nestedInfoRef k val =>
+      simp only [convOp] at h1 ⊢
+      by_cases hk : scansDepth k = true
+      · simp only [hk, if_true] at h1 ⊢
+        exact hi val (hsub _ ho val (by simp [opDeps, hk])) h1
+      · simp [hk] at h1
+    | nestedPlain k => exact h1
   cases a with
   | unitRef val => exact hu val (fun t ht => by simpa [attrDeps] using ht) hfull
   | infoRef val => exact hi val (by simp [attrDeps]) hfull
@@ -278,8 +293,17 @@ theorem conversion_monotone (ids ids' : List Off) (hsub : ∀ x, x ∈ ids → x
     | unitRef v => exact hu v h
     | infoRef v => exact hi v h
     | implicitRef v => exact hi v h
-    | nestedUnitRef v => exact hu v h
-    | nestedInfoRef v => exact hi v h
+    | nestedUnitRef k v =>
+      simp only [convOp] at h ⊢
+      by_cases hk : scansDepth k = true
+      · simp only [hk, if_true] at h ⊢; exact hu v h
+      · simp [hk] at h
+    | nestedInfoRef k v =>
+      simp only [convOp] at h ⊢
+      by_cases hk : scansDepth k = true
+      · simp only [hk, if_true] at h ⊢; exact hi v h
+      · simp [hk] at h
+    | nestedPlain k => exact h
   have hops : ∀ ops : List OpRef, firstErr (ops.map (convOp ids u)) = none →
       firstErr (ops.map (convOp ids' u)) = none := by
     intro ops h
@@ -446,6 +470,27 @@ theorem run_correct (m : Mode) (units : List (UnitHdr × List Entry)) (ras : Lis
 /-- the extractor understood `has_die_back_edge` and the `read_entry` condition -/
 theorem table_fresh : Tables.FilterTags.stale = [] := by decide
 
+/-- **`entry_value_depth_pinned`** — `MAX_ENTRY_VALUE_DEPTH` as extracted from `src/write/op.rs` is 64,
+and the extractor found both uses of it (`table_fresh`): the filter scans an operation nested in
+`k` `DW_OP_entry_value`s iff `k ≤ 64`, which is exactly when `Expression::from` does not reject
+the expression for its nesting — the two bounds coincide, so a reference is either recorded or
+sits in an expression that cannot be converted (filtered or not). -/
+theorem entry_value_depth_pinned :
+    Tables.FilterTags.maxEntryValueDepth = 64 ∧
+    (∀ k, scansDepth k = true ↔ k ≤ 64) ∧
+    (∀ ids u k v, scansDepth k = false →
+      convOp ids u (.nestedUnitRef k v) = some .unsupportedOperation ∧
+      convOp ids u (.nestedInfoRef k v) = some .unsupportedOperation ∧
+      convOp ids u (.nestedPlain k) = some .unsupportedOperation ∧
+      opDeps u (.nestedUnitRef k v) = [] ∧ opDeps u (.nestedInfoRef k v) = []) := by
+  refine ⟨by decide, ?_, ?_⟩
+  · intro k
+    simp only [scansDepth, decide_eq_true_eq]
+    have : Tables.FilterTags.maxEntryValueDepth = 64 := by decide
+    rw [this]
+  · intro ids u k v hk
+    simp [convOp, opDeps, hk]
+
 /-- the "standalone" tags (types, namespaces, modules, imports, …: not kept alive by their parent),
 written by hand from the intent documented in the source -/
 def standaloneTags : List Nat :=
@@ -567,7 +612,7 @@ example : (convertEntries [11, 15, 23, 31, 65] ⟨0, 11, 36⟩ [(0, 11)] exUnit0
 expression has a `DW_OP_implicit_pointer` to the root-level variable `23`, which nothing else keeps -/
 def exImplicitPointer : List (UnitHdr × List Entry) :=
   [ (⟨0, 11, 20⟩,
-      [ ⟨15, 1, false, 0x2e, false, [.expr [.implicitRef 23, .nestedUnitRef 23]], true⟩,
+      [ ⟨15, 1, false, 0x2e, false, [.expr [.implicitRef 23, .nestedUnitRef 64 23]], true⟩,
         ⟨23, 1, false, 0x34, false, [], false⟩ ]) ]
 
 /-- **`implicit_pointer_regression`** — the repaired filter records the edge: `23` is reserved and
@@ -586,6 +631,18 @@ def exSkippedLoc : List (UnitHdr × List Entry) :=
 the filtered conversion succeeds (it used to end in `InvalidUnitRef`) -/
 theorem skipped_loc_regression :
     run .debug exSkippedLoc = .converted [[15, 23]] [[(15, some 11), (23, some 11)]] := by decide
+
+/-- fix 8679173: a reference nested in 64 `DW_OP_entry_value`s is recorded and converted (see
+`exImplicitPointer`), one nested in 65 is not recorded and the conversion of the expression fails
+for its nesting, filtered or not -/
+def exDeepNesting : List (UnitHdr × List Entry) :=
+  [ (⟨0, 11, 20⟩,
+      [ ⟨15, 1, false, 0x2e, false, [.expr [.nestedUnitRef 65 23]], true⟩,
+        ⟨23, 1, false, 0x34, false, [], false⟩ ]) ]
+
+theorem entry_value_nesting_regression :
+    run .debug exDeepNesting = .convErr .unsupportedOperation ∧
+    (convertUnits (allIds exDeepNesting) exDeepNesting []).toBool = false := by decide
 
 /-- recorded finding C19-3 (open): the unit root DIE (always converted) references the DIE `15`, which
 nothing else keeps: `FilterUnit::new` skips the root's attributes, so no edge is recorded, and the
